@@ -31,6 +31,7 @@ type simWorld struct {
 	app     *simapp.SimApp
 	ctx     sdk.Context
 	handler sdk.Handler
+	mk      servicekeeper.Keeper // the keeper module calls go through
 	height  int64
 	time    int64
 }
@@ -117,6 +118,18 @@ func newSimWorld(sc *Scenario) *simWorld {
 			ReuquestService: func(ctx sdk.Context, input string) (string, string) { return spec.Result, spec.Output }})
 	}
 	w.handler = service.NewHandler(k)
+	w.mk = k
+	if sc.Rig.FX != nil {
+		// host chain with a token module: the application's own keeper (end of block, module manager) asks the
+		// exchange-rate service registered here; messages and module calls go through a keeper over the same stores
+		// that carries the token keeper (the end-of-block code never consults it)
+		_ = k.RegisterModuleService(st.RegisterModuleName, fxService(sc.Rig.FX))
+		fk := servicekeeper.NewKeeper(app.AppCodec(), app.GetKey(st.StoreKey), app.AccountKeeper, app.BankKeeper, fxTokenKeeper{},
+			app.GetSubspace(st.ModuleName), authtypes.FeeCollectorName)
+		_ = fk.RegisterModuleService(st.RegisterModuleName, fxService(sc.Rig.FX))
+		w.handler = service.NewHandler(fk)
+		w.mk = fk
+	}
 	// genesis of the explored world: params, funded accounts
 	k.SetParams(w.ctx, sc.Params.Params())
 	for _, f := range sc.Funds {
@@ -156,7 +169,7 @@ func (w *simWorld) exec(a Action) (outcome string) {
 	case a.Mod != nil:
 		cctx, write := w.ctx.CacheContext()
 		cctx = cctx.WithValue(st.TxHash, a.TxHash).WithValue(st.MsgIndex, int64(0))
-		if err := a.Mod(cctx, w.app.ServiceKeeper); err != nil {
+		if err := a.Mod(cctx, w.mk); err != nil {
 			return "error"
 		}
 		write()
